@@ -8,6 +8,7 @@ import (
 	"github.com/skycoin/skycoin/src/daemon/gnet"
 	"github.com/skycoin/skycoin/src/daemon/pex"
 	"github.com/skycoin/skycoin/src/transaction"
+	"github.com/skycoin/skycoin/src/visor"
 )
 
 // VerifDaemoner implements the package-private daemoner interface with function fields, so that a harness can put a
@@ -85,4 +86,11 @@ func VerifProcessAnnounceBlocks(d *VerifDaemoner, maxSeq uint64, addr string) {
 func VerifProcessGetBlocks(d *VerifDaemoner, last, count uint64, addr string) {
 	m := &GetBlocksMessage{LastBlock: last, RequestedBlocks: count, c: &gnet.MessageContext{Addr: addr, ConnID: 7}}
 	m.process(d)
+}
+
+// VerifGatewayInjectTransaction is the gateway entry point behind POST /api/v1/injectTransaction with no_broadcast:
+// Daemon.InjectTransaction on a Daemon that holds the given visor (a user submission that is not broadcast).
+func VerifGatewayInjectTransaction(v *visor.Visor, txn coin.Transaction) error {
+	dm := &Daemon{visor: v}
+	return dm.InjectTransaction(txn)
 }
